@@ -169,6 +169,8 @@ def collect(rep, prop, tier, seed, exe, replay=None):
         progs, cases, hist = gen(rng, tier)
     work = os.path.join(CACHE, "work", "%s-%s" % (prop, tier))
     records, build_fail = run_programs("A", "drv_acc.hpp", progs, cases, configs, work, exe, nshards=16, name="acc")
+    import incoq
+    incoq_n = incoq.sample_check(rep, prop, "A", records, tier, seed, work, replay)
     for (sh_, cfg, blog) in {c: (s_, c, l) for (s_, c, l) in reversed(build_fail)}.values():
         rep.violation("access driver shard %s no longer builds in configuration %s" % (sh_, cfg),
                       {"obligation": "corr:acc/build/%s/%s" % (sh_, cfg), "log": blog[-3000:], "signature": "build:acc:%s" % cfg}, True)
@@ -198,7 +200,7 @@ def collect(rep, prop, tier, seed, exe, replay=None):
         if len(seen) >= 6:
             break
     return {
-        "evaluations": evaluations, "distinct_nontrivial": len(nontriv),
+        "evaluations": evaluations, "distinct_nontrivial": len(nontriv), "evaluated_inside_coq_too": incoq_n,
         "rule": "programs = mdspan<ET, extents, layout, accessor> with ET in {int, const int, double, struct}, layouts left/right/stride/padded and a user-defined layout, "
                 "accessors {default, stateful accessor with non-pointer data handle that logs (handle, offset), proxy-reference accessor}, index argument type int8..uint64 "
                 "or a class convertible to index_type; every multi-index of the shape is accessed through each form available in the configuration (separate indices / std::array / "
